@@ -113,20 +113,42 @@ def fock_state_obj(sf, data, n, pure, D):
     return BaseFockState(np.array(data, dtype=np.complex128), n, pure, D)
 
 
-def fock_backend(sf, data, n, pure, D):
+def fock_backend(sf, data, n, pure, D, dels=(), n0=None):
+    """a FockBackend whose register had `n0` subsystems of which `dels` were deleted (n left), holding `data`"""
     from strawberryfields.backends.fockbackend import FockBackend
     be = FockBackend()
-    be.begin_circuit(n, cutoff_dim=D, pure=pure)
+    be.begin_circuit(n0 or n, cutoff_dim=D, pure=pure)
+    for d in dels:
+        be.del_mode(d)
     be.circuit._state = np.array(data, dtype=np.complex128)
     be.circuit._pure = pure
     return be
 
 
+def subsystem_arg(rng, n, act, maplen):
+    """a `modes` argument in subsystem indices for a register with active subsystems `act` (n of them) out of `maplen`"""
+    ms = rand_modes_arg(rng, n)
+    dead = [m for m in range(maplen) if m not in act]
+    out = []
+    for m in ms:
+        if m < n:
+            out.append(act[m])
+        elif dead and rng.random() < 0.6:
+            out.append(rng.choice(dead))            # a deleted subsystem
+        else:
+            out.append(maplen + (m - n))            # beyond the register
+    if dead and rng.random() < 0.08:
+        out.insert(rng.randint(0, len(out)), rng.choice(dead))
+    if rng.random() < 0.03:
+        out = []
+    return out
+
+
 def corr_fock(ctx, sf, n_cases):
     rng, nprng = ctx.rng, ctx.nprng(16)
     cases = []
-    kinds = ["reducedDm", "reducedDm", "backendState", "backendState", "dm", "trace", "probs", "meanPhoton", "numberExp",
-             "parity", "fidelity"]
+    kinds = ["reducedDm", "reducedDm", "backendState", "backendState", "backendState", "dm", "trace", "probs", "meanPhoton",
+             "numberExp", "parity", "fidelity", "reducedDmLetters"]
     for it in range(n_cases):
         kind = kinds[it % len(kinds)]
         D = rng.choice([2, 2, 3])
@@ -152,22 +174,51 @@ def corr_fock(ctx, sf, n_cases):
                 return dict(k=np.ndim(r) // 2, t=flat(r))
             nt = n >= 2 and modes != list(range(n))
         elif kind == "backendState":
-            modes = rand_modes_arg(rng, n) if rng.random() < 0.9 else None
+            # half of the registers have holes: n0 subsystems, some deleted, n left
+            n0 = n + (rng.randint(1, 2) if rng.random() < 0.5 else 0)
+            dels = sorted(rng.sample(range(n0), n0 - n))
+            act = [m for m in range(n0) if m not in dels]
+            modes = subsystem_arg(rng, n, act, n0) if rng.random() < 0.9 else None
             if modes is not None:
                 req["modes"] = modes
-            case["modes"] = modes
-            as_int = modes is not None and len(modes) == 1 and modes[0] < n and rng.random() < 0.5
+            ax = iter(range(n))
+            req["map"] = [None if m in dels else next(ax) for m in range(n0)]
+            case.update(modes=modes, dels=dels, n0=n0)
+            as_int = modes is not None and len(modes) == 1 and rng.random() < 0.5
             case["as_int"] = as_int
 
-            def real(data=data, n=n, pure=pure, D=D, modes=modes, as_int=as_int):
+            def real(data=data, n=n, pure=pure, D=D, modes=modes, as_int=as_int, dels=dels, n0=n0):
                 arg = modes
                 if as_int:
                     arg = modes[0]          # the int form of a single mode
-                r = call(fock_backend(sf, data, n, pure, D).state, arg if arg is None or isinstance(arg, int) else list(arg))
+                be = fock_backend(sf, data, n, pure, D, dels, n0)
+                r = call(be.state, arg if arg is None or isinstance(arg, int) else list(arg))
                 if is_exc(r):
                     return dict(err=r[1])
-                return dict(pure=bool(r.is_pure), k=int(r.num_modes), t=flat(r.data))
-            nt = n >= 2 and modes is not None and modes != list(range(n))
+                labels = [int(r.mode_names[i][2:-1]) for i in range(r.num_modes)]
+                return dict(pure=bool(r.is_pure), k=int(r.num_modes), t=flat(r.data), labels=labels)
+            nt = n >= 2 and modes is not None and modes != act
+        elif kind == "reducedDmLetters":
+            k = rng.randint(0, n)
+            modes = sorted(rng.sample(range(n), k))
+            req["modes"] = modes
+            case["modes"] = modes
+
+            def real(data=data, n=n, pure=pure, D=D, modes=modes):
+                st = fock_state_obj(sf, data, n, pure, D)
+                if modes == list(range(n)):
+                    r = st.dm()
+                else:
+                    r = st.reduced_dm(list(modes))
+                # the letter string the loop of reduced_dm builds, rebuilt from the documented recipe
+                letters = [[2 * len(modes) + t] * 2 for t in range(n - len(modes))]
+                ctr = 0
+                for m in range(n):
+                    if m in modes:
+                        letters.insert(m, [2 * ctr, 2 * ctr + 1])
+                        ctr += 1
+                return dict(k=len(modes), t=flat(r), ind=letters)
+            nt = n >= 2 and 0 < k < n
         elif kind == "dm":
             def real(data=data, n=n, pure=pure, D=D):
                 return flat(fock_state_obj(sf, data, n, pure, D).dm())
@@ -268,10 +319,11 @@ def corr_gauss(ctx, sf, n_cases):
     rng, nprng = ctx.rng, ctx.nprng(17)
     sf.hbar = 2
     cases = []
-    kinds = ["reducedGaussian", "reducedGaussian", "backendState", "meanPhoton", "quad", "parityArgs"]
+    kinds = ["reducedGaussian", "reducedGaussian", "backendState", "backendState", "meanPhoton", "quad", "parityArgs", "polyQuad",
+             "polyQuad"]
     for it in range(n_cases):
         kind = kinds[it % len(kinds)]
-        n = rng.randint(1, 5)
+        n = rng.randint(1, 3 if kind == "polyQuad" else 5)     # the model's rotated covariance is not memoised
         mu, V = dyadic_gauss(rng, nprng, n)
         case = dict(kind=kind, n=n)
         if kind == "reducedGaussian":
@@ -291,18 +343,61 @@ def corr_gauss(ctx, sf, n_cases):
             be.circuit.nmat = np.array([[complex(float(a), float(b)) for a, b in row] for row in N], dtype=complex).reshape(n, n)
             be.circuit.mmat = np.array([[complex(float(a), float(b)) for a, b in row] for row in M], dtype=complex).reshape(n, n)
             be.circuit.mean = np.array([complex(float(a), float(b)) for a, b in mean], dtype=complex)
+            dels = sorted(rng.sample(range(n), rng.randint(1, n - 1))) if n >= 2 and rng.random() < 0.5 else []
+            for dmode in dels:
+                be.del_mode(dmode)
+            act = [int(x) for x in be.get_modes()]
             u = rng.random()
-            modes = rng.sample(range(n), rng.randint(1, n)) if u < 0.8 else (None if u < 0.9 else [n])
+            if u < 0.75:
+                modes = rng.sample(act, rng.randint(1, len(act)))
+            elif u < 0.8:
+                modes = [rng.choice(act)] * 2                       # duplicates are not rejected by this back end
+            elif u < 0.9:
+                modes = None
+            else:
+                modes = [rng.choice(dels)] if dels and rng.random() < 0.6 else [act[0], n]
             xp_mu, xp_V = be.circuit.smean(), be.circuit.scovmat()
-            req = gauss_req(kind, n, xp_mu, xp_V, modes=list(range(n)) if modes is None else modes)
-            case["modes"] = modes
+            req = gauss_req(kind, n, xp_mu, xp_V, active=act)
+            if modes is not None:
+                req["modes"] = modes
+            as_int = modes is not None and len(modes) == 1 and rng.random() < 0.5
+            case.update(modes=modes, dels=dels, as_int=as_int)
 
-            def real(be=be, modes=modes):
-                r = call(be.state, None if modes is None else list(modes))
+            def real(be=be, modes=modes, as_int=as_int):
+                r = call(be.state, None if modes is None else (modes[0] if as_int else list(modes)))
                 if is_exc(r):
                     return dict(err=r[1])
-                return np.array(r.means()), np.array(r.cov())
+                return np.array(r.means()), np.array(r.cov()), [int(r.mode_names[i][2:-1]) for i in range(r.num_modes)]
             nt = n >= 2 and modes is not None and modes != list(range(n))
+        elif kind == "polyQuad":
+            hb = rng.choice([2, 2, 1, Fraction(1, 2)])
+            A = np.zeros((2 * n, 2 * n))
+            if rng.random() < 0.85:
+                for _ in range(rng.randint(1, 4)):
+                    i, j_ = rng.randrange(2 * n), rng.randrange(2 * n)
+                    v = rng.choice([1.0, -0.5, 0.75, 0.25])
+                    A[i, j_] += v
+                    A[j_, i] += v
+            d = np.array([rng.choice([0.0, 0.0, 1.0, -0.5, 0.25]) for _ in range(2 * n)])
+            if rng.random() < 0.1:
+                d[:] = 0
+            kk = rng.choice([0.0, 0.5, -1.25])
+            c, s_ = simcorr.circle_point(rng) if rng.random() < 0.6 else (Fraction(1), Fraction(0))
+            phi = math.atan2(s_, c)
+            req = gauss_req(kind, n, mu, V, A=[[fr(x) for x in row] for row in A], d=[fr(x) for x in d], k=fr(kk), hbar=fr(hb),
+                            c=fr(c), s=fr(s_), rotate=bool(phi != 0))
+            case.update(hbar=float(hb), A=A.tolist(), d=d.tolist(), k=kk, c=str(c), s=str(s_))
+
+            def real(mu=mu, V=V, n=n, A=A, d=d, kk=kk, phi=phi, hb=hb):
+                old = sf.hbar
+                try:
+                    sf.hbar = float(hb)
+                    st = gauss_state_obj(sf, mu / math.sqrt(float(hb) / 2), V / (float(hb) / 2), n)
+                    r = st.poly_quad_expectation(A.copy(), d.copy(), kk, phi)
+                finally:
+                    sf.hbar = old
+                return np.array([r[0], r[1]], dtype=float)
+            nt = n >= 2
         elif kind == "meanPhoton":
             mode = rng.randrange(n)
             hb = rng.choice([2, 2, 1, Fraction(1, 2)])
@@ -359,9 +454,11 @@ def corr_gauss(ctx, sf, n_cases):
             mmu, mV = model_gdata(model)
             ok = mmu.shape == impl[0].shape and mV.shape == impl[1].shape and np.array_equal(mmu, impl[0]) and \
                 np.array_equal(mV, impl[1])
+            if case["kind"] == "backendState":
+                ok = ok and model["labels"] == impl[2]
             if not ok:
                 ctx.disagree(name, case, dict(mu=str(mmu), cov=str(mV)), dict(mu=str(impl[0]), cov=str(impl[1])))
-        elif case["kind"] in ("meanPhoton", "quad"):
+        elif case["kind"] in ("meanPhoton", "quad", "polyQuad"):
             m = np.array([rat(model[0]), rat(model[1])])
             if np.max(np.abs(m - impl)) > 1e-9 * max(1.0, np.max(np.abs(m))):
                 ctx.disagree(name, case, str(m), str(impl))
@@ -397,7 +494,7 @@ def corr_bosonic(ctx, sf, n_cases):
     rng, nprng = ctx.rng, ctx.nprng(18)
     sf.hbar = 2
     cases = []
-    kinds = ["reducedBosonic", "backendState", "parity", "displacement", "walrus"]
+    kinds = ["reducedBosonic", "backendState", "parity", "displacement", "walrus", "meanPhoton", "quad", "marginal"]
     for it in range(n_cases):
         kind = kinds[it % len(kinds)]
         n = rng.randint(1, 4)
@@ -424,7 +521,8 @@ def corr_bosonic(ctx, sf, n_cases):
                 r = call(be.state, list(modes))
                 if is_exc(r):
                     return dict(err=r[1])
-                return np.array(r.means()), np.array(r.covs()), np.array(r.weights())
+                return np.array(r.means()), np.array(r.covs()), np.array(r.weights()), \
+                    [int(r.mode_names[i][2:-1]) for i in range(r.num_modes)]
         elif kind in ("parity", "displacement"):
             modes = rng.sample(range(n), rng.randint(1, n))
             req = dict(op="st.bosonic", kind="ind" if kind == "parity" else "displacementInd", n=n, modes=modes)
@@ -432,6 +530,21 @@ def corr_bosonic(ctx, sf, n_cases):
             def real(st=st, modes=modes, kind=kind):
                 r = call(st.parity_expectation if kind == "parity" else st.displacement, list(modes))
                 return dict(err=r[1]) if is_exc(r) else np.array(r)
+        elif kind in ("meanPhoton", "quad", "marginal"):
+            m = rng.randrange(n)
+            modes = [m]
+            c, s_ = simcorr.circle_point(rng)
+            comps = [dict(w=fr(w[i]), mu=[fr(x) for x in mus[i][2 * m: 2 * m + 2]],
+                          cov=[[fr(x) for x in row[2 * m: 2 * m + 2]] for row in covs[i][2 * m: 2 * m + 2]]) for i in range(nw)]
+            req = dict(op="st.bosonic", kind=kind, n=n, modes=modes, comps=comps, hbar=fr(2), c=fr(c), s=fr(s_))
+            xv = np.array([-1.5, -0.25, 0.0, 0.5, 2.0])
+
+            def real(st=st, m=m, kind=kind, phi=math.atan2(s_, c), xv=xv):
+                if kind == "meanPhoton":
+                    return np.array(st.mean_photon(m), dtype=float)
+                if kind == "quad":
+                    return np.array(st.quad_expectation(m, phi), dtype=float)
+                return np.array(st.marginal(m, xv, phi), dtype=float)
         else:  # the ordering handed to thewalrus by reduced_dm / fock_prob
             modes = sorted(rng.sample(range(n), rng.randint(1, min(n, 2))))
             req = dict(op="st.bosonic", kind="walrus", n=n, modes=modes)
@@ -441,6 +554,9 @@ def corr_bosonic(ctx, sf, n_cases):
         case["modes"] = modes
         cases.append((req, real, case, (mus, covs, w), n >= 2 and modes != list(range(n))))
     answers = ctx.lean([c[0] for c in cases])
+    lab_reqs = [c[0] for c in cases if c[2]["kind"] == "backendState"]
+    labels_model = {id(r): a for r, a in zip(lab_reqs, ctx.lean([dict(op="st.bosonic", kind="labels", n=r["n"], modes=r["modes"])
+                                                                  for r in lab_reqs]))}
     for (req, real, case, (mus, covs, w), nt), model in zip(cases, answers):
         impl = real()
         ctx.corr_cases += 1
@@ -459,8 +575,20 @@ def corr_bosonic(ctx, sf, n_cases):
             ind = model["ind"]
             want = (mus[:, ind], covs[:, ind, :][:, :, ind], w)
             ok = all(a.shape == b.shape and np.array_equal(a, b) for a, b in zip(want, impl))
+            if case["kind"] == "backendState":
+                ok = ok and labels_model[id(req)] == impl[3]
             if not ok:
                 ctx.disagree(name, case, str(ind), str(impl[0])[:200])
+        elif case["kind"] in ("meanPhoton", "quad"):
+            m_ = np.array([rat(model[0]), rat(model[1])])
+            if np.max(np.abs(m_ - impl)) > 1e-9 * max(1.0, np.max(np.abs(m_))):
+                ctx.disagree(name, case, str(m_), str(impl))
+        elif case["kind"] == "marginal":
+            xv = np.array([-1.5, -0.25, 0.0, 0.5, 2.0])
+            want = sum(rat(t[0]) * np.exp(-0.5 * (xv - rat(t[1])) ** 2 / rat(t[2])) / math.sqrt(2 * math.pi * rat(t[2]))
+                       for t in model)
+            if np.max(np.abs(want - impl)) > 1e-9:
+                ctx.disagree(name, case, str(want), str(impl))
         elif case["kind"] == "parity":
             ind = model
             val = 0.0
@@ -604,72 +732,172 @@ def probs_cutoff(n, D):
     return {1: min(D, 8), 2: 4, 3: 3}.get(n, 3)
 
 
-def observe(sf, st, rep, n, D, args):
-    """every method of the state object -> {key: value}; exceptions are recorded"""
-    o = {}
+def thunks(sf, st, rep, n, D, args):
+    """every method of the state object as (key, thunk, cheap); `cheap` ones are re-run in another order / after mutations"""
+    t = []
     xvec, pvec = grids(sf.hbar)
     fock = rep.startswith("fock")
     ck = {} if fock else dict(cutoff=D)
+
+    def add(key, f, cheap=True):
+        t.append((key, f, cheap))
     if rep == "gaussian":
-        o["means"], o["cov"] = np.array(st.means()), np.array(st.cov())
-        o["is_pure"] = bool(st.is_pure)
+        add("means", lambda: np.array(st.means()))
+        add("cov", lambda: np.array(st.cov()))
+        add("is_pure", lambda: bool(st.is_pure))
     if rep == "bosonic":
-        o["purity"] = call(st.purity)
+        add("purity", st.purity)
     if fock:
-        o["trace"] = call(st.trace)
+        add("trace", st.trace)
     for ms in S.sorted_subsets(n):
         key = ",".join(map(str, ms))
         if rep == "gaussian":
-            r = call(st.reduced_gaussian, list(ms))
-            o["reduced_gaussian:" + key] = r if is_exc(r) else np.concatenate([np.ravel(r[0]), np.ravel(r[1])])
+            def rg(ms=ms):
+                r = st.reduced_gaussian(list(ms))
+                return np.concatenate([np.ravel(r[0]), np.ravel(r[1])])
+            add("reduced_gaussian:" + key, rg)
         if rep == "bosonic":
-            r = call(st.reduced_bosonic, list(ms))
-            o["reduced_bosonic:" + key] = r if is_exc(r) else (np.array(r[0]), np.array(r[1]), np.array(r[2]))
+            def rb(ms=ms):
+                r = st.reduced_bosonic(list(ms))
+                return (np.array(r[0]), np.array(r[1]), np.array(r[2]))
+            add("reduced_bosonic:" + key, rb)
         if len(ms) <= (2 if n <= 3 else 1):
-            o["reduced_dm:" + key] = call(st.reduced_dm, list(ms), **ck)
+            add("reduced_dm:" + key, lambda ms=ms: np.array(st.reduced_dm(list(ms), **ck)), cheap=(len(ms) == 1))
     for m in range(n):
-        o[f"mean_photon:{m}"] = call(lambda: np.array(st.mean_photon(m), dtype=float))
+        add(f"mean_photon:{m}", lambda m=m: np.array(st.mean_photon(m), dtype=float))
         for phi in args["phis"]:
-            o[f"quad:{m}:{phi}"] = call(lambda: np.array(st.quad_expectation(m, phi), dtype=float))
-        o[f"wigner:{m}"] = call(lambda: np.array(st.wigner(m, xvec, pvec)))
+            add(f"quad:{m}:{phi}", lambda m=m, phi=phi: np.array(st.quad_expectation(m, phi), dtype=float))
+        add(f"wigner:{m}", lambda m=m: np.array(st.wigner(m, xvec, pvec)))
         if rep == "gaussian":
-            o[f"fidelity:{m}"] = call(st.fidelity, (np.array(args["other_mu"]), np.array(args["other_cov"])), m)
+            add(f"fidelity:{m}", lambda m=m: st.fidelity((np.array(args["other_mu"]), np.array(args["other_cov"])), m))
         elif fock:
             ket = S.fock_gaussian_ket(args["other_mu"], args["other_cov"], D, sf.hbar)
-            o[f"fidelity:{m}"] = call(st.fidelity, ket, m)
+            add(f"fidelity:{m}", lambda m=m, ket=ket: st.fidelity(ket, m))
         if rep == "bosonic":
-            o[f"marginal:{m}"] = call(lambda: np.array(st.marginal(m, xvec, args["phis"][1])))
+            add(f"marginal:{m}", lambda m=m: np.array(st.marginal(m, xvec, args["phis"][1])))
     for ms in args["sels"]:
         key = ",".join(map(str, ms))
-        o["parity:" + key] = call(st.parity_expectation, list(ms))
+        add("parity:" + key, lambda ms=ms: st.parity_expectation(list(ms)))
         if fock or len(ms) <= 2:          # thewalrus' <prod n^2> is a large hafnian beyond two modes
-            r = call(st.number_expectation, list(ms))
-            o["number:" + key] = r if is_exc(r) else np.array(r, dtype=float)
+            add("number:" + key, lambda ms=ms: np.array(st.number_expectation(list(ms)), dtype=float), cheap=fock or len(ms) == 1)
         if not fock:
-            o["displacement:" + key] = call(lambda: np.array(st.displacement(list(ms))))
+            add("displacement:" + key, lambda ms=ms: np.array(st.displacement(list(ms))))
+    if rep == "gaussian":
+        for ms in args["sels"][:6]:
+            add("squeezing:" + ",".join(map(str, ms)), lambda ms=ms: np.array(st.squeezing(list(ms)), dtype=float))
+        for m in range(n):
+            add(f"is_coherent:{m}", lambda m=m: bool(st.is_coherent(m)))
+            add(f"is_squeezed:{m}", lambda m=m: bool(st.is_squeezed(m)))
     if n <= 2:
         # marginals of the Wigner function (BaseState.x_quad_values / p_quad_values integrate wigner() with Simpson's rule)
         m = args["qmode"]
         gx = np.linspace(-7, 7, 57) * math.sqrt(sf.hbar / 2)
         gp = np.linspace(-7.5, 7.5, 61) * math.sqrt(sf.hbar / 2)
-        o[f"x_quad_values:{m}"] = call(lambda: np.array(st.x_quad_values(m, gx, gp)))
-        o[f"p_quad_values:{m}"] = call(lambda: np.array(st.p_quad_values(m, gx, gp)))
-    o["fidelity_vacuum"] = call(st.fidelity_vacuum)
-    o["fidelity_coherent"] = call(st.fidelity_coherent, list(args["alphas"]))
-    o["fidelity_coherent0"] = call(st.fidelity_coherent, [0.0] * n)
+        add(f"x_quad_values:{m}", lambda: np.array(st.x_quad_values(m, gx, gp)), cheap=False)
+        add(f"p_quad_values:{m}", lambda: np.array(st.p_quad_values(m, gx, gp)), cheap=False)
+    add("fidelity_vacuum", st.fidelity_vacuum)
+    add("fidelity_coherent", lambda: st.fidelity_coherent(list(args["alphas"])))
+    add("fidelity_coherent0", lambda: st.fidelity_coherent([0.0] * n))
     for i, p in enumerate(args["polys"]):
-        r = call(st.poly_quad_expectation, np.array(p["A"]), np.array(p["d"]), p["k"], p["phi"])
-        o[f"poly:{i}"] = r if is_exc(r) else np.array(r, dtype=float)
+        add(f"poly:{i}", lambda p=p: np.array(st.poly_quad_expectation(np.array(p["A"]), np.array(p["d"]), p["k"], p["phi"]),
+                                               dtype=float), cheap=not fock)
     if fock and n <= 2:
-        o["all_fock_probs"] = call(lambda: np.array(st.all_fock_probs()))
+        add("all_fock_probs", lambda: np.array(st.all_fock_probs()))
     elif not fock and n <= 3:
         # thewalrus computes every probability by a (loop) hafnian: keep the block small
-        o["all_fock_probs"] = call(lambda: np.array(st.all_fock_probs(cutoff=probs_cutoff(n, D))))
+        add("all_fock_probs", lambda: np.array(st.all_fock_probs(cutoff=probs_cutoff(n, D))), cheap=False)
     for pat in ([0] * n, [1] + [0] * (n - 1), [0] * (n - 1) + [2], [1] * n):
-        o["fock_prob:" + ",".join(map(str, pat))] = call(st.fock_prob, list(pat), **ck)
+        add("fock_prob:" + ",".join(map(str, pat)), lambda pat=pat: st.fock_prob(list(pat), **ck))
     if n <= 2:
-        o["dm"] = call(st.dm, **ck)
-    return o
+        add("dm", lambda: np.array(st.dm(**ck)), cheap=(n == 1))
+        if st.is_pure:
+            add("ket", lambda: np.array(st.ket(**ck)), cheap=(n == 1))
+    return t
+
+
+def observe(sf, st, rep, n, D, args, only_cheap=False, order=None):
+    """run the thunks -> {key: value}; exceptions are recorded"""
+    t = thunks(sf, st, rep, n, D, args)
+    if only_cheap:
+        t = [x for x in t if x[2]]
+    if order is not None:
+        order.shuffle(t)
+    return {key: call(f) for key, f, _ in t}
+
+
+def snapshot(st, rep):
+    """the arrays a state object stores (deep copies)"""
+    out = [np.array(x, copy=True) for x in (st.data if isinstance(st.data, (tuple, list)) else [st.data])]
+    if rep == "gaussian":
+        out += [np.array(st.means(), copy=True), np.array(st.cov(), copy=True), np.array(st.displacement(), copy=True)]
+    if rep == "bosonic":
+        out += [np.array(st.means(), copy=True), np.array(st.covs(), copy=True), np.array(st.weights(), copy=True)]
+    return out
+
+
+def same_values(a, b, tol=1e-12):
+    if is_exc(a) or is_exc(b):
+        return a == b
+    if isinstance(a, tuple):
+        return all(same_values(x, y, tol) for x, y in zip(a, b))
+    if isinstance(a, (bool, np.bool_)):
+        return bool(a) == bool(b)
+    a, b = np.asarray(a), np.asarray(b)
+    if a.shape != b.shape or not np.array_equal(np.isnan(a), np.isnan(b)):
+        return False
+    a, b = np.nan_to_num(a), np.nan_to_num(b)          # a nan answer is the same answer when it is nan again
+    return a.size == 0 or bool(np.max(np.abs(a - b)) <= tol * max(1.0, float(np.max(np.abs(b)))))
+
+
+# methods whose result is freshly computed on the unchanged tree (so a caller may overwrite it): mutated by the aliasing probe
+FRESH = ("reduced_dm", "reduced_gaussian", "reduced_bosonic", "mean_photon", "quad", "wigner", "displacement", "squeezing",
+         "all_fock_probs", "number", "marginal")
+
+
+def history_independence(ctx, sf, st, rep, n, D, args, first, snap0, rp, rng):
+    """the answers of a state object may not depend on what was asked before: (i) every stored array is unchanged after all
+    methods ran, (ii) the cheap methods asked again in a shuffled order give the same answers, (iii) after overwriting every
+    freshly computed array a method returned (and the arrays `state(modes)` objects carry) the answers are still the same"""
+    snap1 = snapshot(st, rep)
+    ctx.oracle_cases += 1
+    if not all(x.shape == y.shape and np.array_equal(x, y, equal_nan=True) for x, y in zip(snap0, snap1)):
+        ctx.fail(f"history:{rep}:stored-data-changed", f"{rep}: calling the observables changed the arrays the state object stores", rp)
+        return
+    second = observe(sf, st, rep, n, D, args, only_cheap=True, order=rng)
+    for key, v in second.items():
+        ctx.oracle_cases += 1
+        if key in first and not same_values(first[key], v):
+            ctx.fail(f"history:{rep}:{key.split(':')[0]}:depends-on-call-order", f"{rep} {key} answers differently when the methods "
+                     "are called in another order / a second time", rp)
+            return
+    # the raw (un-copied) results of the reducers
+    for ms in S.sorted_subsets(n):
+        if len(ms) == n:
+            continue                       # the full list returns the stored arrays themselves (documented shortcut)
+        for name in ("reduced_gaussian", "reduced_bosonic", "reduced_dm"):
+            if hasattr(st, name) and not (name == "reduced_dm" and (len(ms) > 1 or not rep.startswith("fock"))):
+                r = call(getattr(st, name), list(ms))
+                for arr in (r if isinstance(r, tuple) else (r,)):
+                    if isinstance(arr, np.ndarray) and arr.flags.writeable and arr.size and name != "reduced_bosonic":
+                        arr[...] = -3.5
+                if name == "reduced_bosonic" and not is_exc(r):
+                    for arr in r[1:]:       # the weights are the stored array (shared by design)
+                        if arr.flags.writeable:
+                            arr[...] = -3.5
+    for m in range(n):
+        for name, a in (("displacement", ([m],)), ("wigner", (m, np.linspace(-1, 1, 3), np.linspace(-1, 1, 3))),
+                        ("all_fock_probs", ())):
+            if hasattr(st, name) and (name != "all_fock_probs" or (rep.startswith("fock") and m == 0 and n <= 2)):
+                r = call(getattr(st, name), *a)
+                if isinstance(r, np.ndarray) and r.flags.writeable and r.size:
+                    r[...] = 2.5
+    third = observe(sf, st, rep, n, D, args, only_cheap=True)
+    for key, v in third.items():
+        ctx.oracle_cases += 1
+        if key in first and not same_values(first[key], v):
+            ctx.fail(f"history:{rep}:{key.split(':')[0]}:aliased-result", f"{rep} {key} changes after a caller overwrote arrays that "
+                     "other methods had returned", rp)
+            return
 
 
 def expected_ps(ps, n, D, args, hbar):
@@ -699,6 +927,19 @@ def expected_ps(ps, n, D, args, hbar):
         e["displacement:" + key] = ps.alpha(ms)
         if len(ms) == 1:
             e["number:" + key] = np.array(ps.mean_photon(ms[0]))
+    for ms in args["sels"][:6]:
+        rs = []
+        for m in ms:
+            _, V1 = ps.reduced([m])
+            rs.append(math.acosh(max(1.0, np.trace(V1) / hbar)) / 2)
+        e["squeezr:" + ",".join(map(str, ms))] = np.array(rs)
+    for m in range(n):
+        _, V1 = ps.reduced([m])
+        dev = float(np.max(np.abs(V1 / (hbar / 2) - np.eye(2))))
+        if abs(dev - 1e-10) > 1e-11:
+            e[f"is_coherent:{m}"] = bool(dev <= 1e-10)
+        if abs(dev - 1e-6) > 1e-7:
+            e[f"is_squeezed:{m}"] = bool(dev > 1e-6)
     e["fidelity_vacuum"] = ps.fidelity_coherent([0.0] * n)
     e["fidelity_coherent"] = ps.fidelity_coherent(args["alphas"])
     e["fidelity_coherent0"] = e["fidelity_vacuum"]
@@ -753,6 +994,15 @@ def compare(ctx, rep, obs, exp, tol, against, rp, skip=()):
             if got is None or is_exc(got):
                 continue
             got = got[0]
+        elif key.startswith("squeezr:"):
+            got = obs.get("squeezing:" + key.split(":")[1])
+            if got is None:
+                continue
+            if not is_exc(got):
+                if np.any(np.isnan(np.asarray(got))):
+                    ctx.fail(f"squeezing:{rep}:nan", f"{rep} squeezing({key.split(':')[1]}) = {np.asarray(got).tolist()} contains nan", rp)
+                got = np.asarray(got)[:, 0]
+            tol = max(tol, 1e-7)
         else:
             got = obs.get(key)
         if got is None or key in skip:
@@ -776,7 +1026,7 @@ def compare(ctx, rep, obs, exp, tol, against, rp, skip=()):
         if isinstance(want, tuple):
             ok = all(close(g, w, tol) for g, w in zip(got, want))
         elif isinstance(want, bool):
-            ok = got == want
+            ok = bool(got) == want
         else:
             ok = close(np.asarray(got), np.asarray(want), tol)
         if not ok:
@@ -864,12 +1114,15 @@ def internal_identities(ctx, rep, obs, n, D, rp, tol):
                 ctx.fail(f"{key.split(':')[0]}:{rep}:order-dependent", f"{rep} {key} differs from {k2}", rp)
 
 
-def backend_state_selections(ctx, sf, eng, rep, n, full, ps, rp, rng):
+def backend_state_selections(ctx, sf, eng, rep, n, full, ps, rp, rng, act=None):
     """`backend.state(modes)` for every ordered selection against an own reduction of the full state"""
     sels = S.ordered_subsets(n) if n <= 3 else rng.sample(S.ordered_subsets(n), 12)
+    act = list(act) if act is not None else list(range(n))      # subsystem index of position m
+    subs = []
     for ms in sels:
-        arg = ms[0] if len(ms) == 1 and rng.random() < 0.5 else list(ms)
+        arg = act[ms[0]] if len(ms) == 1 and rng.random() < 0.5 else [act[m] for m in ms]
         st = call(eng.backend.state, arg)
+        subs.append(st)
         ctx.oracle_cases += 1
         ctx.count(f"oracle:state(modes):{rep}", dict(rp=rp["spec"], ms=ms, rep=rep), n >= 2)
         if is_exc(st):
@@ -878,6 +1131,10 @@ def backend_state_selections(ctx, sf, eng, rep, n, full, ps, rp, rng):
         if st.num_modes != len(ms):
             ctx.fail(f"state(modes):{rep}:num_modes", f"{rep} backend.state({ms}).num_modes = {st.num_modes}", rp)
             continue
+        labels = [st.mode_names[i] for i in range(st.num_modes)]
+        want_l = ["q[%d]" % act[m] for m in (sorted(ms) if rep == "bosonic" else ms)]
+        if labels != want_l or dict(st.mode_indices) != {nm: i for i, nm in enumerate(want_l)}:
+            ctx.fail(f"state(modes):{rep}:mode_names", f"{rep} backend.state({ms}) labels its modes {labels}, expected {want_l}", rp)
         if rep.startswith("fock"):
             want = sim.reduced_dm(full, n, list(ms))
             got = call(st.dm)
@@ -896,17 +1153,70 @@ def backend_state_selections(ctx, sf, eng, rep, n, full, ps, rp, rng):
                 ctx.fail(f"state(modes):{rep}:all_fock_probs", f"{rep} backend.state({ms}).all_fock_probs() is not the diagonal "
                          "of its density matrix", rp)
         elif rep == "gaussian":
-            mu, V = ps.reduced(ms)
+            mu, V = ps.reduced([act[m] for m in ms])
             if not (close(st.means(), mu, 1e-9) and close(st.cov(), V, 1e-9)):
                 ctx.fail(f"state(modes):{rep}:means-cov", f"gaussian backend.state({ms}) is not the reduced state of modes {ms} "
                          "in that order", rp)
-            elif abs(st.mean_photon(0)[0] - ps.mean_photon(ms[0])[0]) > 1e-9:
+            elif abs(st.mean_photon(0)[0] - ps.mean_photon(act[ms[0]])[0]) > 1e-9:
                 ctx.fail(f"state(modes):{rep}:mean_photon", f"gaussian backend.state({ms}).mean_photon(0) is not that of mode {ms[0]}", rp)
         else:
-            mu, V = ps.reduced_xpxp(sorted(ms))     # documented: ascending
+            mu, V = ps.reduced_xpxp(sorted(act[m] for m in ms))     # documented: ascending
             if not (close(st.means()[0], mu, 1e-9) and close(st.covs()[0], V, 1e-9)):
                 ctx.fail(f"state(modes):{rep}:means-covs", f"bosonic backend.state({ms}) is not the reduced state of modes "
                          f"{sorted(ms)} (ascending, as documented)", rp)
+    # the state objects handed out for a selection own their arrays: overwriting them leaves the simulator untouched
+    before = call(eng.backend.state)
+    snap = None if is_exc(before) else snapshot(before, "fock" if rep.startswith("fock") else rep)
+    for st in subs:
+        if is_exc(st) or (rep.startswith("fock") and st.num_modes >= n):
+            continue            # a Fock selection of ALL modes is a view of the simulator tensor (einsum / transpose return views)
+        for arr in (st.data if isinstance(st.data, (tuple, list)) else [st.data])[: 2]:
+            if isinstance(arr, np.ndarray) and arr.flags.writeable and arr.size:
+                arr[...] = 1.75
+    after = call(eng.backend.state)
+    ctx.oracle_cases += 1
+    if snap is not None and not is_exc(after):
+        snap2 = snapshot(after, "fock" if rep.startswith("fock") else rep)
+        if not all(x.shape == y.shape and np.allclose(x, y, atol=1e-12, rtol=0) for x, y in zip(snap, snap2)):
+            ctx.fail(f"state(modes):{rep}:aliases-simulator", f"{rep}: overwriting the arrays of the objects backend.state(modes) "
+                     "returned changed the state of the simulator", rp)
+
+
+def pins(ctx, sf, st, eng, rep, n, D, o, rp):
+    """documented behaviour of the small public members no other comparison touches: ket vs dm, equality, names, cutoff"""
+    fock = rep.startswith("fock")
+    ctx.oracle_cases += 1
+    if st.num_modes != n or [st.mode_names[i] for i in range(n)] != ["q[%d]" % i for i in range(n)] or \
+            dict(st.mode_indices) != {"q[%d]" % i: i for i in range(n)} or abs(st.hbar - sf.hbar) > 0:
+        ctx.fail(f"pins:{rep}:names-or-hbar", f"{rep} state: num_modes {st.num_modes}, names {st.mode_names}, hbar {st.hbar}", rp)
+    if fock and st.cutoff_dim != D:
+        ctx.fail(f"pins:{rep}:cutoff_dim", f"cutoff_dim = {st.cutoff_dim}, register cutoff {D}", rp)
+    ket, dm = o.get("ket"), o.get("dm")
+    if ket is not None and dm is not None and not is_exc(ket) and not is_exc(dm):
+        k = np.asarray(ket)
+        own = np.multiply.outer(k, k.conj()).transpose([i for m in range(n) for i in (m, m + n)])
+        if not close(own, dm, 1e-9):
+            ctx.fail(f"ket:{rep}:vs-dm", f"{rep} ket() (x) ket()^* differs from dm()", rp)
+    # equality: a second state object of the same simulator is equal, one after a small displacement is not
+    again = call(eng.backend.state)
+    ctx.oracle_cases += 1
+    if is_exc(again) or not (st == again) or (again != st):
+        ctx.fail(f"eq:{rep}:same-state-unequal", f"{rep}: two state objects of the same simulator state compare unequal", rp)
+    if not fock and n == 1 and rep == "gaussian":
+        d10 = call(st.dm)                     # default cutoff is documented as 10
+        if is_exc(d10) or np.shape(d10) != (10, 10):
+            ctx.fail("dm:gaussian:default-cutoff", f"gaussian dm() without cutoff has shape {np.shape(d10)}", rp)
+    try:
+        eng.backend.squeeze(0.25, 0.3, n - 1)
+        squeezed = eng.backend.state()
+        if st == squeezed:
+            ctx.fail(f"eq:{rep}:different-states-equal", f"{rep}: the state compares equal to the state squeezed by 0.25 in mode {n - 1}", rp)
+        eng.backend.displacement(0.3, 0.4, 0)
+        moved = eng.backend.state()
+        if squeezed == moved:
+            ctx.fail(f"eq:{rep}:different-states-equal", f"{rep}: the state compares equal to the state displaced by 0.3", rp)
+    except Exception as e:  # noqa: BLE001
+        ctx.fail(f"eq:{rep}:raises-{exc_name(e)}", f"{rep}: comparing with a displaced state raised {exc_name(e)}", rp)
 
 
 def run_rep(sf, spec, rep, D):
@@ -969,10 +1279,12 @@ def check_cross_once(ctx, sf, spec, hbar, D, seed, reps=None):
         if rep not in all_reps:
             continue
         st, eng = run_rep(sf, spec, rep, D)
+        snap0 = snapshot(st, rep)
         o = observe(sf, st, rep, n, D, args)
         obs[rep] = o
         ctx.count(f"oracle:cross:{rep}:n={n}", dict(spec=spec, rep=rep, hbar=hbar), n >= 2,
                   sample=dict(spec=spec, rep=rep, hbar=hbar, cutoff=D))
+        history_independence(ctx, sf, st, rep, n, D, args, o, snap0, rp, rng)
         if rep.startswith("fock"):
             full = sim.dm_of(st)
             fk = S.FK(full, n, hbar)
@@ -985,32 +1297,13 @@ def check_cross_once(ctx, sf, spec, hbar, D, seed, reps=None):
             compare(ctx, rep, o, e_marg, max(tolF, 2e-4), "phase-space-reference", rp)
             internal_identities(ctx, rep, o, n, D, rp, 1e-9)
             backend_state_selections(ctx, sf, eng, rep, n, full, ps, rp, rng)
+            pins(ctx, sf, st, eng, rep, n, D, o, rp)
         else:
             compare(ctx, rep, o, e_ps, 1e-8, "phase-space-reference", rp)
             compare(ctx, rep, o, e_marg, 2e-4, "phase-space-reference", rp)     # Simpson's rule on a finite grid
             internal_identities(ctx, rep, o, n, D, rp, 1e-8)
             backend_state_selections(ctx, sf, eng, rep, n, None, ps, rp, rng)
-            # the Gaussian helpers that only make sense mode by mode (called last: see ASSUMPTIONS of C15)
-            if rep == "gaussian" and (n >= 2 or hbar == 2):
-                for ms in args["sels"][: 6]:
-                    sq = call(st.squeezing, list(ms))
-                    if is_exc(sq):
-                        ctx.fail(f"squeezing:{rep}:raises-{sq[1]}", f"squeezing({ms}) raised {sq[1]}", rp)
-                        continue
-                    for (r, _phi), m in zip(sq, ms):
-                        _, V1 = ps.reduced([m])
-                        want = math.acosh(max(1.0, np.trace(V1) / hbar)) / 2
-                        if abs(r - want) > 1e-7:
-                            ctx.fail(f"squeezing:{rep}:vs-phase-space-reference", f"squeezing({ms}) reports r = {r} for mode {m}, "
-                                     f"its reduced covariance gives {want}", rp)
-                for m in range(n):
-                    _, V1 = ps.reduced([m])
-                    coh = bool(np.allclose(V1 / (hbar / 2), np.eye(2), atol=1e-10, rtol=0))
-                    if bool(st.is_coherent(m)) != coh:
-                        ctx.fail(f"is_coherent:{rep}:vs-phase-space-reference", f"is_coherent({m}) = {st.is_coherent(m)}", rp)
-                    if abs(np.max(np.abs(V1 / (hbar / 2) - np.eye(2))) - 1e-6) > 1e-7 and \
-                            bool(st.is_squeezed(m)) != bool(np.any(np.abs(V1 / (hbar / 2) - np.eye(2)) > 1e-6)):
-                        ctx.fail(f"is_squeezed:{rep}:vs-phase-space-reference", f"is_squeezed({m}) = {st.is_squeezed(m)}", rp)
+            pins(ctx, sf, st, eng, rep, n, D, o, rp)
     # across representations: what no reference above covers (thewalrus-backed numbers, variances of polynomials)
     if "gaussian" in obs:
         for rep in [r for r in obs if r.startswith("fock")]:
@@ -1060,12 +1353,14 @@ def check_fock_only(ctx, sf, spec, D, pure, seed):
     rep = "fock-pure" if pure else "fock-mixed"
     st, eng = run_rep(sf, spec, rep, D)
     args = make_args(rng, n, HB)
+    snap0 = snapshot(st, rep)
     o = observe(sf, st, rep, n, D, args)
     full = sim.dm_of(st)
     fk = S.FK(full, n, HB)
     ctx.count(f"oracle:fock-nongaussian:{rep}:n={n}", dict(spec=spec, rep=rep), n >= 2, sample=dict(spec=spec, rep=rep))
     compare(ctx, rep, o, expected_fk(fk, n, args), 1e-9, "own-fock-calculation", rp)
     internal_identities(ctx, rep, o, n, D, rp, 1e-9)
+    history_independence(ctx, sf, st, rep, n, D, args, o, snap0, rp, rng)
     backend_state_selections(ctx, sf, eng, rep, n, full, None, rp, rng)
 
 
@@ -1120,9 +1415,9 @@ def check_bosonic_vs_fock_once(ctx, sf, spec, D, seed):
                                                   "fidelity_vacuum", "fidelity_coherent", "fidelity_coherent0")]
     sub = {k: of[k] for k in keys if not is_exc(of[k])}
     compare(ctx, "bosonic", ob, sub, tolF, "fock-mixed-representation", rp)
-    # the methods that hand every component to thewalrus: thewalrus conjugates the means, which is only right for real ones
+    # the methods that evaluate every component in the Fock basis (complex means: SF's own analytically continued routine)
     sub = {k: of[k] for k in of if k.split(":")[0] in walrus and not is_exc(of[k])}
-    compare(ctx, "bosonic", ob, sub, tolF, "fock-mixed-representation" + (":complex-means" if cplx else ""), rp)
+    compare(ctx, "bosonic", ob, sub, tolF, "fock-mixed-representation", rp)
     e = {"purity": fk.purity()}
     compare(ctx, "bosonic", ob, e, max(tolF, 1e-4), "fock-mixed-representation", rp)
     internal_identities(ctx, "bosonic", ob, n, D, rp, 1e-8)
@@ -1136,6 +1431,77 @@ def check_bosonic_vs_fock_once(ctx, sf, spec, D, seed):
         if not close(got, al[list(ms)], tolF):
             ctx.fail("displacement:bosonic:vs-fock-mixed-representation", f"bosonic displacement({ms}) = {got}, <a> of these modes "
                      f"in that order = {al[list(ms)]}", rp)
+
+
+# ---------------------------------------------------------------- registers with holes
+
+def holes_spec(rng):
+    n0 = rng.choice([3, 4, 4])
+    ops = [o for o in sim.correlated_prefix(rng, n0)]
+    dels = rng.sample(range(n0), 1 if n0 == 3 else rng.choice([1, 2]))
+    if rng.random() < 0.5:
+        dels = [d for d in dels if d != n0 - 1] or [0]          # a hole that is not at the end
+    ops.append(dict(cls="Del", regs=sorted(dels), pars=[]))
+    new = []
+    if rng.random() < 0.4:
+        new = [n0]
+        ops.append(dict(cls="New", regs=new, pars=[]))
+        ops.append(dict(cls="Sgate", regs=[n0], pars=[0.2, 0.5]))
+        alive = [m for m in range(n0) if m not in dels]
+        ops.append(dict(cls="BSgate", regs=[n0, rng.choice(alive)], pars=[0.6, 0.3]))
+    return dict(n=n0, ops=ops)
+
+
+def check_holes(ctx, sf, spec, D, seed):
+    """states of registers with deleted (and re-created) modes: the state object and `backend.state(modes)` speak about
+    subsystem indices, whatever rows / axes the simulator keeps them on"""
+    import random
+    rp = dict(kind="holes", spec=spec, cutoff=D, seed=seed)
+    rng = random.Random(seed)
+    sf.hbar = HB
+    ref = sim.reference(spec, HB)
+    ps = S.PS(ref, HB)
+    act = list(ref.active)
+    k = len(act)
+    for rep in ("gaussian", "bosonic", "fock-mixed"):
+        if rep == "fock-mixed" and any(o["cls"] == "ThermalLossChannel" for o in spec["ops"]):
+            continue
+        st, eng = run_rep(sf, spec, rep, D)
+        ctx.count(f"oracle:holes:{rep}", dict(spec=spec, rep=rep), True, sample=dict(spec=spec, rep=rep))
+        ctx.oracle_cases += 1
+        labels = [st.mode_names[i] for i in range(st.num_modes)]
+        if st.num_modes != k or labels != ["q[%d]" % m for m in act]:
+            ctx.fail(f"holes:{rep}:modes-of-state", f"{rep}: the state after {spec['ops'][-1]} has modes {labels}, active {act}", rp)
+            continue
+        if rep == "gaussian":
+            mu, V = ps.reduced(act)
+            if not (close(st.means(), mu, 1e-9) and close(st.cov(), V, 1e-9)):
+                ctx.fail("holes:gaussian:means-cov", f"gaussian state of the active modes {act} is not their reduced state", rp)
+        full = None
+        if rep == "fock-mixed":
+            full = sim.dm_of(st)
+            fk = S.FK(full, k, HB)
+            tolF = 1e-6 + 30 * D * D * max(0.0, 1 - fk.tr)
+            for pos, m in enumerate(act):
+                got, want = st.mean_photon(pos)[0], ps.mean_photon(m)[0]
+                ctx.oracle_cases += 1
+                if abs(got - want) > max(tolF, 1e-3):
+                    ctx.fail("holes:fock-mixed:mean_photon", f"fock: mean_photon({pos}) = {got}, subsystem {m} has {want}", rp)
+        for pos, m in enumerate(act):
+            got = call(lambda: st.mean_photon(pos)[0])
+            ctx.oracle_cases += 1
+            if rep != "fock-mixed" and (is_exc(got) or abs(got - ps.mean_photon(m)[0]) > 1e-8):
+                ctx.fail(f"holes:{rep}:mean_photon", f"{rep}: mean_photon({pos}) = {got}, subsystem {m} has {ps.mean_photon(m)[0]}", rp)
+        backend_state_selections(ctx, sf, eng, rep, k, full, ps, rp, rng, act=act)
+        # a deleted subsystem / an index beyond the register is not a valid selection
+        if rep != "bosonic":
+            dead = [m for m in range(ps.n) if m not in act]
+            for bad in ([dead[0]], [act[0], dead[0]], [ps.n + 1]):
+                r = call(eng.backend.state, bad)
+                ctx.oracle_cases += 1
+                if not is_exc(r):
+                    ctx.fail(f"holes:{rep}:accepts-dead-mode", f"{rep} backend.state({bad}) returned a state although {bad} is not "
+                             f"a list of active subsystems (active: {act})", rp)
 
 
 # ================================================================ driver of the check
@@ -1157,8 +1523,24 @@ def run_item(ctx, sf, rp):
         check_fock_only(ctx, sf, rp["spec"], rp["cutoff"], rp["pure"], rp["seed"])
     elif k == "bosonic-vs-fock":
         check_bosonic_vs_fock(ctx, sf, rp["spec"], rp["cutoff"], rp["seed"])
+    elif k == "holes":
+        check_holes(ctx, sf, rp["spec"], rp["cutoff"], rp["seed"])
     elif k == "post":
         pass
+
+
+def guarded(ctx, rp, f):
+    """an exception of the code under test inside an oracle is a failing input, not a crash of the harness"""
+    try:
+        f()
+    except core.Infra:
+        raise
+    except Exception as e:  # noqa: BLE001
+        import traceback
+        tb = traceback.extract_tb(e.__traceback__)
+        where = next((f"{fr_.filename.split('/')[-1]}:{fr_.lineno}" for fr_ in reversed(tb) if "strawberryfields" in fr_.filename),
+                     f"{tb[-1].filename.split('/')[-1]}:{tb[-1].lineno}")
+        ctx.fail(f"raises:{rp['kind']}:{exc_name(e)}", f"{exc_name(e)}: {str(e)[:160]} (at {where})", rp)
 
 
 def run(ctx, sf):
@@ -1166,29 +1548,36 @@ def run(ctx, sf):
     rng = ctx.rng
     for rp in corpus_cases():
         ctx.tally("corpus")
-        run_item(ctx, sf, rp)
+        guarded(ctx, rp, lambda: run_item(ctx, sf, rp))
     if ctx.proof_ok:
-        corr_fock(ctx, sf, ctx.n(660, 6600))
-        corr_gauss(ctx, sf, ctx.n(360, 3600))
+        corr_fock(ctx, sf, ctx.n(560, 6000))
+        corr_gauss(ctx, sf, ctx.n(330, 3300))
         corr_bosonic(ctx, sf, ctx.n(250, 2500))
     check_post(ctx, sf, ctx.n(150, 1500))
     kinds = ["product", "product+bs", "mixed", "pure"]
-    for it in range(ctx.n(24, 200)):
+    for it in range(ctx.n(16, 180)):
         kind = kinds[it % 4]
-        n = [2, 2, 3, 2, 1, 3, 2, 4][it % 8]
+        n = [2, 2, 3, 2, 1, 1, 2, 4, 2, 2, 3, 2, 1, 3, 2, 4][it % 16]     # it = 5: one mode at hbar != 2
         if ctx.tier == "quick" and n == 3 and kind != "product" and it % 3:
             n = 2
         spec = S.rand_state_spec(rng, n, kind)
         hbar = HB if it % 5 else rng.choice([1.0, 0.5])
         D = {1: 14, 2: 11, 3: 7, 4: 6}[n]
-        check_cross(ctx, sf, spec, hbar, D, rng.getrandbits(30))
-    for it in range(ctx.n(14, 120)):
+        rp = dict(kind="cross", spec=spec, hbar=hbar, cutoff=D, seed=rng.getrandbits(30))
+        guarded(ctx, rp, lambda: run_item(ctx, sf, rp))
+    for it in range(ctx.n(10, 110)):
         n = [2, 1, 2, 3][it % 4]
-        D = {1: 9, 2: 7, 3: 5}[n]
-        check_fock_only(ctx, sf, fock_nongauss_spec(rng, n), D, it % 2 == 0, rng.getrandbits(30))
-    for it in range(ctx.n(6, 50)):
+        rp = dict(kind="fock-only", spec=fock_nongauss_spec(rng, n), cutoff={1: 9, 2: 7, 3: 5}[n], pure=it % 2 == 0,
+                  seed=rng.getrandbits(30))
+        guarded(ctx, rp, lambda: run_item(ctx, sf, rp))
+    for it in range(ctx.n(5, 50)):
         n = [2, 1, 2][it % 3]
-        check_bosonic_vs_fock(ctx, sf, bosonic_nongauss_spec(rng, n), {1: 16, 2: 13}[n], rng.getrandbits(30))
+        rp = dict(kind="bosonic-vs-fock", spec=bosonic_nongauss_spec(rng, n), cutoff={1: 16, 2: 13}[n], seed=rng.getrandbits(30))
+        guarded(ctx, rp, lambda: run_item(ctx, sf, rp))
+    for it in range(ctx.n(4, 50)):
+        spec = holes_spec(rng)
+        rp = dict(kind="holes", spec=spec, cutoff=6 if spec["n"] == 3 else 5, seed=rng.getrandbits(30))
+        guarded(ctx, rp, lambda: run_item(ctx, sf, rp))
     sf.hbar = HB
 
 
